@@ -140,7 +140,7 @@ def r18_2(rep):
     rep.check(okb, "push-back-blocks", "all collected extern blocks are pushed back after the loop", b.loc(b.root))
 
 
-@RULES.rule("R18.3", "semantic sort is stable and keyed on the item kind only", floor=3)
+@RULES.rule("R18.3", "semantic sort is stable and keyed on the item kind only", floor=5)
 def r18_3(rep):
     sorters = []
     for b in rep.prog.bodies.values():
@@ -153,15 +153,39 @@ def r18_3(rep):
         callee = c.get("callee", "")
         rep.check("unstable" not in callee and "select_nth" not in callee, "stable-sort:" + b.path.split("::")[-2],
                   "`%s` must be a stable sort (same-kind items keep their relative order)" % callee, b.loc(c))
-        if c["args"] and strip(c["args"][0])["k"] == "Closure":
-            clo = strip(c["args"][0])
-            m = strip(clo["body"])
-            if m["k"] == "Match":
-                lits = all(strip(a["body"])["k"] == "Lit" for a in m["arms"])
-                rep.check(lits, "rank-is-constant-per-kind", "every arm of the rank function is a literal", b.loc(m))
-                total = any("_" in pat_variants(a["pat"]) for a in m["arms"])
-                rep.check(total, "rank-total", "the rank function has a catch-all arm", b.loc(m))
-                rep.note("ranks", {list(pat_variants(a["pat"]))[0]: strip(a["body"]).get("v") for a in m["arms"]})
+        if not c["args"]:
+            continue
+        # the key function: a closure, a closure that forwards to a function, or a function named directly
+        kb, m = b, None
+        k = strip(c["args"][0])
+        for _ in range(4):
+            if k["k"] == "Closure":
+                k = strip(k["body"])
+            elif k["k"] in ("Call", "MCall") and rep.prog.fn(k.get("resolved") or k.get("callee") or "") is not None:
+                kb = rep.prog.fn(k.get("resolved") or k.get("callee"))
+                k = strip(kb.root)
+            elif k["k"] == "Path" and rep.prog.fn(k.get("def", "")) is not None:
+                kb = rep.prog.fn(k["def"])
+                k = strip(kb.root)
+            elif k["k"] == "Block" and not k["stmts"] and k.get("tail") is not None:
+                k = strip(k["tail"])
+            else:
+                break
+        if k["k"] == "Match":
+            m = k
+        if not rep.check(m is not None, "rank-is-a-kind-table", "the sort key is a `match` over the item kind" if m is not None else
+                         "the sort key `%s` cannot be read as a table over the item kind" % b.canon(c["args"][0], 3)[:100], b.loc(c)):
+            continue
+        lits = all(strip(a["body"])["k"] == "Lit" for a in m["arms"])
+        rep.check(lits, "rank-is-constant-per-kind", "every arm of the rank function is a literal", kb.loc(m))
+        guarded = [a for a in m["arms"] if "guard" in a]
+        rep.check(not guarded, "rank-depends-on-kind-only",
+                  "no arm of the rank table looks inside the item" if not guarded else
+                  "arm `%s if ..` ranks items of one kind differently: their relative order changes (`impl T {}` vs `impl Tr for T {}`)"
+                  % list(pat_variants(guarded[0]["pat"]))[0].split("::")[-1], kb.loc(guarded[0]["body"]) if guarded else kb.loc(m))
+        total = any("_" in pat_variants(a["pat"]) for a in m["arms"])
+        rep.check(total, "rank-total", "the rank function has a catch-all arm", kb.loc(m))
+        rep.note("ranks", {list(pat_variants(a["pat"]))[0]: strip(a["body"]).get("v") for a in m["arms"]})
 
 
 @RULES.rule("R18.4", "each pass runs iff its own option is set; visitors recurse into modules", floor=8)
@@ -205,9 +229,35 @@ def r18_4(rep):
         rep.check(ok, "driver-run-guard", "`run` of a pass is guarded by `should_run` of the same pass", d.loc(c))
     # the result of the passes is what is returned
     tail = strip(d.root.get("tail") or {})
-    rep.check(tail.get("k") == "MCall" and tail.get("name") == "into_token_stream" and "file" in d.canon(tail["recv"], 1) or
-              "parse2" in d.canon(tail.get("recv", {}) if tail.get("k") == "MCall" else {}),
-              "driver-returns-file", "the processed file is returned", d.loc(d.root))
+    passed = {strip(c["args"][0]).get("id") for c in runs if c["args"] and strip(c["args"][0]).get("k") == "Local"}
+    trecv = strip(tail["recv"]) if tail.get("k") == "MCall" and tail.get("name") in ("into_token_stream", "to_token_stream") else {}
+    rep.check(trecv.get("k") == "Local" and trecv.get("id") in passed,
+              "driver-returns-file", "the file the passes worked on is what is returned", d.loc(d.root))
+    # what the passes see is the parse of the whole module text: one syn::Item per Rust item.  (codegen's Vec<TokenStream> holds
+    # several items per entry -- a struct with its impls, a constified enum with its alias -- so parsing entry by entry, or
+    # carrying an unparsable entry as Item::Verbatim, would move such a group as one item of the wrong kind)
+    for c in runs:
+        arg = strip(c["args"][0]) if c["args"] else {}
+        init = None
+        if arg.get("k") == "Local":
+            dd = d.local_def.get(arg["id"])
+            if dd and dd[0][0] == "let":
+                init = dd[0][1].get("init")
+        e = init
+        while e is not None and e.get("k") in ("MCall", "Try") and (e["k"] == "Try" or e.get("name") in ("unwrap", "expect", "unwrap_or_else", "unwrap_or_default")):
+            e = strip(e["e"] if e["k"] == "Try" else e["recv"])
+        whole = e is not None and e.get("k") == "Call" and (e.get("callee") or e.get("resolved") or "").startswith("syn::parse2") and \
+            "syn::File" in (d.ty(e) or "")
+        rep.check(whole, "driver-parses-whole-file", "the passes run on `syn::parse2::<syn::File>(<all tokens>)`" if whole else
+                  "the file the passes run on is `%s`, not the parse of the whole token stream" % (d.canon(init, 3)[:120] if init else "?"),
+                  d.loc(init) if init else d.loc(c))
+    verb = []
+    for x in prog.bodies.values():
+        if "postprocessing" in x.path:
+            verb += [(x, n) for n in x.nodes if (n["k"] == "Path" and n.get("def") == "syn::Item::Verbatim") or
+                     (n["k"] == "Call" and (n.get("ctor") or n.get("callee") or "") == "syn::Item::Verbatim")]
+    rep.check(not verb, "no-verbatim-items", "no pass or driver creates `syn::Item::Verbatim` (an opaque group of items that sorts as one)",
+              verb[0][0].loc(verb[0][1]) if verb else d.loc(d.root))
     # visitors
     for mod in ("merge_extern_blocks", "sort_semantically"):
         for meth, rec in (("visit_file_mut", "syn::visit_mut::visit_file_mut"), ("visit_item_mod_mut", "syn::visit_mut::visit_item_mod_mut")):
